@@ -201,6 +201,27 @@ NOTES = []
 _DP_MODE = {}
 
 
+class NotDecided(BaseException):
+    """The harness does not fit the tree under test at this point (a private function it drives is gone or takes other
+    parameters).  Deliberately NOT an Exception: the checks' handlers that turn the tree's own failures into outcomes
+    ('except Exception') let it through; mc/core.py turns it into 'block not decided' - noted, run incomplete, never a finding."""
+
+
+def call_private(module, name, *args, **kw):
+    """module.<name>(*args, **kw) for a PRIVATE function of annet that a property is anchored in.  A missing name, or a call
+    that the function's parameter list does not accept, raises NotDecided; everything the function itself raises passes."""
+    fn = getattr(module, name, None)
+    if fn is None:
+        raise NotDecided("%s has no %s in this tree" % (getattr(module, "__name__", module), name))
+    try:
+        return fn(*args, **kw)
+    except TypeError as e:
+        if e.__traceback__ is not None and e.__traceback__.tb_next is None:
+            # raised by the call itself (argument binding), not inside the function
+            raise NotDecided("%s.%s does not take these arguments in this tree: %s" % (getattr(module, "__name__", module), name, e)) from e
+        raise
+
+
 def diff_and_patch(device, old, new, acl_rules, filter_acl_rules, add_comments, ref_track=None, do_commit=True, rb=None):
     """annet.api._diff_and_patch - the production composition behind `annet patch` / `annet deploy` - called the way
     annet's own callers call it.  It is a private function: if a tree gives it another parameter list (a refactoring may
@@ -209,11 +230,11 @@ def diff_and_patch(device, old, new, acl_rules, filter_acl_rules, add_comments, 
     reported as a finding."""
     import inspect
     from annet import api
-    fn = api._diff_and_patch
+    fn = getattr(api, "_diff_and_patch", None)
     mode = _DP_MODE.get(id(fn))
     if mode is None:
         try:
-            names = list(inspect.signature(fn).parameters)
+            names = list(inspect.signature(fn).parameters) if fn is not None else ["<no such function>"]
         except (TypeError, ValueError):
             names = []
         mode = "classic" if names[:6] == ["device", "old", "new", "acl_rules", "filter_acl_rules", "add_comments"] else "composed"
@@ -231,5 +252,7 @@ def diff_and_patch(device, old, new, acl_rules, filter_acl_rules, add_comments, 
         new = patching.apply_acl(new, acl_rules, with_annotations=add_comments)
     diff_tree = patching.make_diff(old, new, rb, [acl_rules, filter_acl_rules])
     pre = patching.make_pre(diff_tree)
+    if not hasattr(api, "patch_from_pre"):
+        raise NotDecided("annet.api has neither _diff_and_patch in its known shape nor patch_from_pre in this tree")
     patch_tree = api.patch_from_pre(pre, device.hw, rb, add_comments, ref_track, do_commit)
     return (patching.strip_unchanged(diff_tree), patch_tree)
